@@ -234,7 +234,7 @@ Section Naming.
   Definition label_ok (l : R.jlabel) : Prop :=
     match l with R.Submit j => R.j_name j = [] \/ exists n, R.j_name j = rn n | _ => True end.
 
-  Definition cert0 (n : nat) : M.cert := M.Cert 0 n [] true true.
+  Definition cert0 (n : nat) : M.cert := {| M.cid := 0; M.chead := n; M.crest := []; M.cdue := true; M.cman := true |}.
 
   (** one step of the job manager = zero or one job-list operation of Maintain *)
   Theorem jstep_refines : forall maxw s js l s', RP.jinv s -> absR s js -> label_ok l ->
@@ -489,10 +489,11 @@ Theorem view_without_finishing_refuted :
     R.jstep 1 s (R.Submit (R.Job 2 (rn0 n))) = Some s /\
     forall old, ~ Permutation (map R.j_name (R.queue s ++ R.running s)) (mview rn0 (M.submit_renew js n old)).
 Proof.
-  assert (Hr : R.jrun 1 R.jinit [R.Submit (R.Job 1 (rn0 7)); R.Take; R.Return 1 R.KOk] =
-               Some (R.JM [] [rn0 7] 1 0 [] [R.Job 1 (rn0 7)])) by (vm_compute; reflexivity).
-  exists (R.JM [] [rn0 7] 1 0 [] [R.Job 1 (rn0 7)]), [], 7.
-  assert (Hre : RP.reachable 1 (R.JM [] [rn0 7] 1 0 [] [R.Job 1 (rn0 7)])) by (eexists; exact Hr).
+  destruct (R.jrun 1 R.jinit [R.Submit (R.Job 1 (rn0 7)); R.Take; R.Return 1 R.KOk]) as [s|] eqn:Hr;
+    [|vm_compute in Hr; discriminate].
+  exists s, [], 7.
+  assert (Hre : RP.reachable 1 s) by (eexists; exact Hr).
+  vm_compute in Hr. injection Hr as <-.
   split; [exact Hre|]. split; [apply (RP.reachable_inv 1 _ (le_n 1) Hre)|].
   split; [apply Permutation_refl|]. split; [vm_compute; reflexivity|].
   intros old Hp. cbn in Hp. apply Permutation_nil in Hp. discriminate.
@@ -572,7 +573,7 @@ Theorem retry_loop_decision : forall iv maxd pick0 c rest t idx k, (t < maxd)%Z 
      if retries (R.c_out c) then
        if (t' <? maxd)%Z then
          let '(l, r, te) := R.retry_loop iv maxd None pick0 rest t' (R.next_idx iv idx) (k + 1)%Z in (a :: l, r, te)
-       else ([a], R.RGiveUpNil, t')
+       else ([a], R.RGiveUp, t')
      else ([a], stop_result (R.c_out c), t')).
 Proof.
   intros iv maxd pick0 c rest t idx k Ht. cbn [R.retry_loop].
@@ -585,7 +586,8 @@ Qed.
     it has the continuation of [ECanc] - stop, return the error. *)
 Definition aerr_of (o : R.outcome) : I.aerr :=
   match o with R.OOk => I.EOk | R.OPlain => I.EPlain | R.OCanceled | R.ONoRetry => I.ECanc end.
-Definition res_of_result (r : R.result) : I.result := match r with R.RNil => I.ROk | _ => I.RErr end.
+(** the caller of doWithRetry sees nil ([R.returns_nil]: after 9155753 only for [RNil]) or an error *)
+Definition res_of_result (r : R.result) : I.result := if R.returns_nil r then I.ROk else I.RErr.
 
 (** (b) same case split: an async obtain/renew thread goes to [PWait] (another attempt) exactly when
     doWithRetry retries, and otherwise leaves through the deferred Unlock with doWithRetry's result *)
@@ -612,15 +614,20 @@ Qed.
 Theorem wait_blocks_without_cancel : forall th, I.tpc th = I.PWait -> I.canc th = false -> I.norm_pc th false = None.
 Proof. intros th Hpc Hc. unfold I.norm_pc. rewrite Hpc, Hc. reflexivity. Qed.
 
-(** NOT refined: doWithRetry's 30-day horizon ("final attempt; giving up", returns nil although every
-    attempt failed: C19_nil_means_success_refuted) has no counterpart in Issuance, where a plain error
-    of an async thread always leads to another round *)
+(** NOT refined: doWithRetry's 30-day horizon ("final attempt; giving up": since 9155753 it returns the
+    last error, before it returned nil - C19's giving_up_returned_nil_orig_refuted) has no counterpart
+    in Issuance, where a plain error of an async thread always leads to another round.  The exit that
+    is missing would be [PUnlock RErr] (an error return), no longer a spurious success. *)
 Theorem horizon_only_in_retry_partial :
   (forall th, I.is_async (I.cfg th) = true -> I.tpc (I.after_attempt th I.EPlain) = I.PWait) /\
   (exists iv maxd calls atts te, iv <> [] /\ R.all_positive iv = true /\
-     R.do_with_retry iv maxd None false calls = (atts, R.RGiveUpNil, te) /\ Forall RP.plain atts /\ atts <> []).
+     R.do_with_retry iv maxd None false calls = (atts, R.RGiveUp, te) /\
+     res_of_result R.RGiveUp = I.RErr /\ Forall RP.plain atts /\ atts <> []).
 Proof.
-  split; [intros th Ha; unfold I.after_attempt; rewrite Ha; reflexivity|exact RP.nil_means_success_refuted].
+  split; [intros th Ha; unfold I.after_attempt; rewrite Ha; reflexivity|].
+  exists [10%Z], 25%Z, [R.Call R.OPlain 1 0; R.Call R.OPlain 1 0; R.Call R.OPlain 20 0].
+  eexists. eexists. split; [discriminate|]. split; [reflexivity|]. split; [vm_compute; reflexivity|].
+  split; [reflexivity|]. split; [repeat constructor|discriminate].
 Qed.
 
 (** (a) Maintain: one model step = one attempt of renewCert's retried closure under the lock.  With
@@ -685,8 +692,9 @@ Example ex_schedulable :
 Proof. eexists. split; [vm_compute; reflexivity|]. cbn. repeat split; lia. Qed.
 
 Example ex_maintain_attempt :
-  let c := M.Cert 5 1 [] true true in
-  let s := M.State [(1, c)] [c] [M.Job 1 M.JRenew (Some c) M.Locked] [] [1] [] [] 6 false in
+  let c := {| M.cid := 5; M.chead := 1; M.crest := []; M.cdue := true; M.cman := true |} in
+  let s := {| M.store := [(1, c)]; M.cache := [c]; M.jobs := [M.Job 1 M.JRenew (Some c) M.Locked]; M.passes := [];
+              M.failing := [1]; M.issued := []; M.failed := []; M.next := 6; M.lasterr := false |} in
   M.split_job 1 0 (M.jobs s) = Some ([], M.Job 1 M.JRenew (Some c) M.Locked, []) /\
   M.stored (M.store s) 1 = Some c /\ M.is_failing s 1 = true /\
   M.failed (M.job_step false s 1 0) = [1].
